@@ -208,6 +208,7 @@ def ofCMsg : CMsg → Json
   | .register r p => .arr #[natJ 64, natJ r, .str p]
   | .unregister r g => .arr #[natJ 66, natJ r, natJ g]
   | .call r p prog => .arr #[natJ 48, natJ r, .str p, .bool prog]
+  | .callChunk r p prog more => .arr #[natJ 48, natJ r, .str p, .bool prog, .bool more]
   | .cancel r mode => .arr #[natJ 49, natJ r, .str mode]
   | .yield r prog => .arr #[natJ 70, natJ r, .bool prog]
   | .error t r e => .arr #[natJ 8, natJ t, natJ r, .str e]
@@ -240,7 +241,7 @@ def retJ (op : R.OpKind) (r : R.Ret) : List Json :=
     | .registered _ reg => if op == .register then [.str "ok", natJ reg] else [.str s!"unexpected:{R.typeCode m}"]
     | _ => if R.typeCode m == expectedCode op then [.str "ok"] else [.str s!"unexpected:{R.typeCode m}"]
 
-def obsJ (dbg : Bool) (ops : Nat → R.OpKind) (t : Nat) (o : Sim.Obs) : Option Json :=
+def obsJ (dbg : Bool) (ops : Nat → R.OpKind) (t : Nat) (o : Sim.Obs) (reqOf : Nat → Nat := fun _ => 0) : Option Json :=
   let mk (xs : List Json) : Option Json := some (.arr (natJ t :: xs).toArray)
   match o with
   | .crashed site => mk [.str "crashed", .str site]
@@ -252,6 +253,9 @@ def obsJ (dbg : Bool) (ops : Nat → R.OpKind) (t : Nat) (o : Sim.Obs) : Option 
   | .r .done => mk [.str "done"]
   | .r .closeReturned => mk [.str "close_returned"]
   | .i (.send m) => mk [.str "send", ofCMsg m]
+  | .p (.send _ m) => mk [.str "send", ofCMsg m]
+  | .i (.progressSent w) => mk [.str "sp", natJ (reqOf w), .str "ok"]
+  | .i (.progressRefused w) => mk [.str "sp", natJ (reqOf w), .str "refused"]
   | .i (.handlerStart _ i) => mk [.str "inv", natJ i.req, natJ i.reg, listJ i.args, dictJ i.kw, .bool i.progress]
   | .r (.handed g m) => if dbg then mk [.str "dbg", .str "handed", natJ g, natJ (R.typeCode m)] else none
   | .r (.unclaimed m) => if dbg then mk [.str "dbg", .str "unclaimed", natJ (R.typeCode m)] else none
@@ -290,7 +294,7 @@ def toCfg (j : Json) : Sim.Cfg × Bool :=
     match j.getObjVal? "behav" with
     | .ok (.obj o) => o.toList.map fun (name, b) =>
         (name, { delay := getNat b "delay", res := getStr b "res", waitCtx := getBool b "wait_ctx",
-                 onCancel := getStr b "on_cancel" N.ErrCanceled })
+                 onCancel := getStr b "on_cancel" N.ErrCanceled, progress := getNat b "progress" })
     | _ => []
   let cm := getStr j "cancel_mode"
   let cm := if cm == "" then Gen.Client.defaultCancelMode else cm
@@ -325,13 +329,14 @@ def fingerprint (s : Sim.S) : UInt64 :=
   let wk := (List.range s.i.n).map fun w => (s.i.ws w, s.i.kill (s.i.ws w).req, s.i.progGate (s.i.ws w).req)
   let txt := toString (repr (s.r.now, s.r.idgen.toNat, ws, s.r.inbox, s.r.run, s.r.recvDone, s.r.done, s.r.sendClosed)) ++
     toString (repr (s.r.eventHandlers, s.r.topicSub, s.r.invHandlers, s.r.procReg, s.r.close, s.r.crashed)) ++
-    toString (repr (s.i.lastRecv.toNat, wk, s.i.pendingSend, s.i.clientDone, s.i.crashed, s.timers, s.waitCtx, s.handed))
+    toString (repr (s.i.lastRecv.toNat, wk, s.i.pendingSend, s.i.clientDone, s.i.crashed, s.timers, s.waitCtx, s.handed)) ++
+    toString (repr (s.gs.map fun g => (s.p.ss g), s.scripts, s.pwait, s.p.crashed, s.spTodo, s.ctxEnded))
   hash txt
 
 def flush (x : Sess) (withFp : Bool := false) : Sess × Json :=
   let new := (x.s.log.take (x.s.log.length - x.seen)).reverse
   let ops : Nat → R.OpKind := fun g => (x.s.r.ws g).op
-  let outs := new.filterMap fun (t, o) => obsJ x.dbg ops t o
+  let outs := new.filterMap fun (t, o) => obsJ x.dbg ops t o (fun w => (x.s.i.ws w).req)
   ({ x with seen := x.s.log.length },
    Json.mkObj [("out", .arr outs.toArray), ("stuck", .bool (Sim.stuck x.cfg x.s)),
                ("fp", .str (if withFp then toString (fingerprint x.s) else ""))])
@@ -353,7 +358,13 @@ def resolveReq (x : Sess) (j : Json) : Json :=
 
 def toStim (x : Sess) (j : Json) : Option Sim.Stim :=
   match getStr j "stim" with
-  | "api" => some (.api (getNat j "g") (toOp (getStr j "op")) (getStr j "name") (getBool j "prog"))
+  | "api" =>
+    if getStr j "op" == "callprog" then
+      let script : List (Nat × String) := match j.getObjVal? "script" with
+        | .ok (.arr a) => a.toList.map fun e => (getNat e "d", getStr e "k")
+        | _ => []
+      some (.apiProg (getNat j "g") (getStr j "name") (getBool j "prog") script)
+    else some (.api (getNat j "g") (toOp (getStr j "op")) (getStr j "name") (getBool j "prog"))
   | "router" => match j.getObjVal? "m" with | .ok m => some (.router (toRMsg (resolveReq x m))) | _ => none
   | "rclose" => some .rclose
   | "cancel" => some (.cancel (getNat j "g") (if getStr j "kind" == "deadline" then .deadline else .canceled))
